@@ -31,6 +31,13 @@ def vkey(v):
     if isinstance(v, Literal):
         dt = v.datatype
         return ("lit", v.value, getattr(dt, "uri", None if dt is None else "?" + repr(dt)), v.langtag)
+    if hasattr(v, "get_provn") and hasattr(v, "_attributes"):
+        # a record object held as a value (the library is meant to store its identifier): everything one can see of it
+        try:
+            shown = v.get_provn()
+        except Exception:
+            shown = repr(v)
+        return ("?record-object", type(v).__name__, shown)
     return ("?", type(v).__name__, repr(v))
 
 
